@@ -79,11 +79,14 @@ class Instance:
             self.bounds = None
         else:
             w = rng.uniform(0.2, 3.0, size=n)
-            self.thin = bool(rng.random() < 0.2)
+            # (choices added later come from an auxiliary generator, so that the instances of earlier suites and of the corpus -
+            # which are re-created from their seed - stay what they were)
+            aux = np.random.default_rng([n, m, int(self.cond * 1e6)])
+            self.thin = bool(aux.random() < 0.2)
             if self.thin:
                 # one side of the box much shorter than 2 * (default rhobeg = 0.1): legal with internal scaling, where rhobeg refers to
                 # the [0, 1] box (seeded change C05_10 rejected such problems as input errors)
-                w[int(rng.integers(0, n))] = float(rng.uniform(0.01, 0.045))
+                w[int(aux.integers(0, n))] = float(aux.uniform(0.01, 0.045))
             if self.bkind == "around":
                 lo, hi = np.minimum(xunc, self.x0) - w, np.maximum(xunc, self.x0) + w
             elif self.bkind == "away":
